@@ -19,6 +19,7 @@ From Coq Require Import NArith ZArith List Lia.
 From FatVerif Require Import Model.Base Model.Table Model.FileM Spec.ByteFile Spec.Image
   Model.Fat Proofs.ImageProofs Proofs.TableProofs Proofs.FatProofs Proofs.FileProofs Proofs.FileFatProofs.
 From FatVerif Require Import Spec.Abs Model.VolFile Proofs.VolFileProofs Proofs.VolFileExamples.
+From FatVerif Require Spec.Regions Model.Offsets Proofs.RegionsProofs.
 Open Scope N_scope.
 
 Theorem C02_image_write_frame : forall bs im off o,
@@ -305,7 +306,8 @@ Proof. vm_compute. repeat split. Qed.
    The abstraction function is the INDEPENDENT DECODER's view: firstn sz (Abs.chain_bytes g im l). *)
 
 (* one step refines the byte-array machine; the invariant is kept; every cluster of the new chain was in the old chain
-   or free for the decoder; outside the mirrored FAT copies and the clusters of the new chain no byte of the image moves *)
+   or free for the decoder; outside the mirrored FAT copies and the clusters of the new chain no byte of the image moves;
+   other files are not disturbed *)
 Theorem C02_image_step : forall g, vgeom_ok g -> forall im fi h sz l op,
   op_ok op -> VolInv g im fi h sz l ->
   exists im' fi' h' r sz' l', vol_step g (im, fi, h) op = ((im', fi', h'), r) /\
@@ -313,8 +315,30 @@ Theorem C02_image_step : forall g, vgeom_ok g -> forall im fi h sz l op,
     bf_step (firstn (N.to_nat sz) (chain_bytes g im l), h_off h) op r
       = Some (firstn (N.to_nat sz') (chain_bytes g im' l'), h_off h') /\
     (forall x, In x l' -> In x l \/ fat_val g im x = FFree) /\
-    (forall a, ~ in_store_area g a -> (forall c, In c l' -> ~ in_cluster g c a) -> img_get im' a = img_get im a).
+    (forall a, ~ in_store_area g a -> (forall c, In c l' -> ~ in_cluster g c a) -> img_get im' a = img_get im a) /\
+    (* several files: any OTHER file of the image with a disjoint chain keeps its invariant and its decoded content *)
+    (forall h2 sz2 l2, VFileInv g (world_of g im fi) h2 sz2 l2 -> NoBad g (world_of g im fi) l2 -> disjoint l l2 ->
+       VFileInv g (world_of g im' fi') h2 sz2 l2 /\ NoBad g (world_of g im' fi') l2 /\
+       firstn (N.to_nat sz2) (chain_bytes g im' l2) = firstn (N.to_nat sz2) (chain_bytes g im l2) /\ disjoint l' l2).
 Proof. exact vol_step_refines. Qed.
+
+(* the frame of a step through the region classifier of Spec/Regions.v (the extracted classifier that judges every device
+   write of the implementation in C11): a byte the step changes is "FAT copy k" (k < number of copies) or "cluster c" for a
+   cluster c that was in the file's chain or free for the decoder before the step *)
+Theorem C02_image_step_changes_classified : forall g, vgeom_ok g -> forall im fi h sz l op,
+  op_ok op -> VolInv g im fi h sz l ->
+  exists im' fi' h' r, vol_step g (im, fi, h) op = ((im', fi', h'), r) /\
+    forall m a, img_get im' a <> img_get im a ->
+      (exists k, k < g_fats g /\ Regions.classify g im m a = Regions.RFat k) \/
+      (exists c, (In c l \/ fat_val g im c = FFree) /\
+                 Regions.classify g im m a = Regions.RCluster c (Regions.cluster_owner g im m c)).
+Proof. exact vol_step_changes_classified. Qed.
+
+(* the data of cluster c is placed where the library's checked u32/u64 address arithmetic (Model/Offsets.v) puts it *)
+Theorem C02_image_data_offset_is_library : forall g c,
+  Offsets.ogeom_ok (RegionsProofs.ogeom_of g) -> 2 <= c < g_clusters g + 2 ->
+  Offsets.offset_from_cluster (RegionsProofs.ogeom_of g) c = Ok (g_cluster_off g c).
+Proof. exact data_offset_is_library. Qed.
 
 (* any history on a new file, on any image with a sane geometry, bytes < 256 and a consistent free-count latch *)
 Theorem C02_image_run_from_empty : forall g, vgeom_ok g -> forall ops im fi,
@@ -380,6 +404,8 @@ Print Assumptions C02_interleaved_refines_fat16.
 Print Assumptions C02_interleaved_refines_fat32.
 Print Assumptions C02_interleaved_refines_fat12.
 Print Assumptions C02_image_step.
+Print Assumptions C02_image_step_changes_classified.
+Print Assumptions C02_image_data_offset_is_library.
 Print Assumptions C02_image_run_from_empty.
 Print Assumptions C02_image_replay_step.
 Print Assumptions C02_image_embedded_state.
